@@ -54,6 +54,12 @@ def gen_cases(ctx):
                 a = mknum(rng, ka, positive=oc in (2, 3, 4, 5, 6, 12))
                 p = float(rng.choice([2.0, -1.0, 0.5, 3.0, 1.5]))
                 cases.append(("un", [14, oc] + dg.enc_number(a) + dg.enc_f(p), "%s(%s)" % (UN[oc], KN[ka]), oc))
+            if oc in (2, 12):
+                # exponents that are NOT integers but very close to one, and bases away from 1 (the power must be the power
+                # asked for: x^2.0000005 is not x^2)
+                for p in (2.0000005, 3.0 - 4e-7, -1.0 + 9e-7, 1.0 + 3e-7, 2.0 + 2e-9):
+                    a = mknum(rng, ka, re=float(rng.choice([20.0, 7.5, 0.05, 3.0])))
+                    cases.append(("un", [14, oc] + dg.enc_number(a) + dg.enc_f(p), "%s(%s)" % (UN[oc], KN[ka]), oc))
         for order in (0, 1, 2):
             for which in (10, 11):
                 for _ in range(reps):
